@@ -107,6 +107,8 @@ def record_emitter(ctx, ck, widths):
     serializer. -> (callable name, [(width, ty, value term)]) with value terms over the closure's params"""
     cands = []
     bodies = list(ctx.closures_of(WRITER))
+    for sp in ctx.body(WRITER).b.get("spliced", ()):
+        bodies += list(ctx.closures_of(sp["callee"]))
     # ... or a free helper function called by the writer: fn add_record(data: &mut StructSerializer, type_, code, value)
     wbody = ctx.body(WRITER)
     for i, name, t in wbody.calls():
@@ -148,9 +150,30 @@ def run(ctx):
     saved = mir.Walker.AUTO_INLINE
     mir.Walker.AUTO_INLINE = False
     try:
+        _splice_phase_helpers(ctx)
         return _run(ctx)
     finally:
         mir.Walker.AUTO_INLINE = saved
+
+
+def _splice_phase_helpers(ctx):
+    """a new helper that holds a PHASE of the writer (build the bytes / write them) is copied into the writer's body, so
+    that the writer is judged as the one function it used to be; a new helper that emits ONE RECORD into a serializer it
+    is handed (first parameter: the StructSerializer) stays a unit of its own -- _emitter analyses it."""
+    from .. import splice
+    known = splice.known_functions()
+    raw = ctx.F.raw_bodies
+    if not known or WRITER not in raw:
+        return
+
+    def is_phase_helper(name):
+        if name not in raw or name in known or "{closure" in name or "::tests::" in name or len(raw[name]["blocks"]) > 250:
+            return False
+        first = raw[name]["locals"][1]["ty"] if raw[name]["argc"] >= 1 and len(raw[name]["locals"]) > 1 else ""
+        return not first.replace("&mut ", "").replace("&", "").strip().endswith("StructSerializer")
+    nb = splice.splice_body(raw[WRITER], raw, is_phase_helper, (), 0)
+    if nb is not raw[WRITER]:
+        ctx._bodies[(WRITER, False)] = mir.Body(nb, ctx.F)
 
 
 def _run(ctx):
